@@ -174,6 +174,10 @@ func main() {
 		for _, tc := range handWritten() {
 			emit(tc)
 		}
+		for _, tc := range largeFileCases() {
+			emit(tc)
+			c.Count("class.large-file", 1)
+		}
 		randomStructured(rng, seeds, r.N(150000, 3000000), emit)
 		c.Count("seed_files", int64(len(seeds)))
 
@@ -227,8 +231,15 @@ func main() {
 					if res.NoProgress {
 						report(c, tc, "non-progress", fmt.Sprintf("reader returned more than len(input)+16 = %d records without an error", len(tc.data)+16), "")
 					}
-					if limit := uint64(256*len(tc.data) + 2<<20); res.Alloc > limit {
-						report(c, tc, "alloc", fmt.Sprintf("allocated %d bytes for a %d-byte input (limit 256*len+2MiB = %d)", res.Alloc, len(tc.data), limit), "")
+					limit := uint64(256*len(tc.data) + 2<<20)
+					if len(tc.data) > 1<<20 {
+						// for megabyte-sized inputs the fixed costs no longer matter: 16x the input
+						// (an honest 7 MB binary STL costs about 3.5x)
+						limit = uint64(16*len(tc.data) + 2<<20)
+					}
+					c.Max("alloc_over_input_bytes."+decoderNames[tc.dec], float64(res.Alloc)/float64(len(tc.data)+1))
+					if res.Alloc > limit {
+						report(c, tc, "alloc", fmt.Sprintf("allocated %d bytes for a %d-byte input (limit %d: 256*len+2MiB, 16*len+2MiB above 1 MiB)", res.Alloc, len(tc.data), limit), "")
 					}
 					c.Max("max_alloc_bytes", float64(res.Alloc))
 					if !strings.HasSuffix(tc.desc, "/valid") {
